@@ -890,7 +890,7 @@ class Runner:
         self.view = View([])
         self.cache: dict[tuple[bool, str], Any] = {}
         self.shapes: list[str] = []
-        self.diag_budget = 6
+        self.diag_budget = 10
         self.dead = False
 
     def count(self, k: str, n: int = 1) -> None:
@@ -1566,7 +1566,7 @@ class C13(Check):
     time_cap = {'quick': 70.0, 'thorough': 600.0}
 
     def cases(self, tier: str, seed: int) -> Iterable[dict[str, Any]]:
-        n = 2600 if tier == 'quick' else 32000
+        n = 2000 if tier == "quick" else 32000
         rng = random.Random(seed * 15485863 + 13)
         leafs = K_NOARG + K_STR + K_DATE + K_SIZE + K_KW + K_OID + \
             ['HEADER', 'UID', 'SEQSET']
